@@ -22,16 +22,20 @@ import sys as _sys
 import jasm.main as _main
 from jasm.global_definitions import InputFileType, MatchingSearchMode, MatchingReturnMode
 
+class _OperationFailed(Exception):
+    pass
+
 class _Recorder:
     last = None
     fail = False
     performed = 0
+    exc = _OperationFailed("operation failed")
     def __init__(self, match_config):
         _Recorder.last = match_config
     def perform_matching(self):
         _Recorder.performed += 1
         if _Recorder.fail:
-            raise RuntimeError("operation failed")
+            raise _Recorder.exc
         return True
 _main.MasterOfPuppets = _Recorder
 _main.configure_logger = lambda **kw: None
@@ -61,8 +65,8 @@ CLI_BODY = '''
         _main.main()
     except SystemExit as e:
         code = e.code
-    except RuntimeError as e:
-        code = "raised"
+    except Exception as e:
+        code = "raised" if e is _Recorder.exc else "other exception"
     usage_error = (not has_p) or src in (0, 3)
     if usage_error:
         return code not in ("returned", "raised", 0, None) and _Recorder.performed == 0
@@ -87,10 +91,24 @@ CLI = '''def cli(all_matches: bool, only_addr: bool, src: int, nmacros: int, has
     """
     fail, order = False, False''' + CLI_BODY
 
-CLI_FAIL = '''def cli_fail(all_matches: bool, binary: bool, order: bool) -> bool:
+CLI_FAIL = '''def cli_fail(all_matches: bool, binary: bool, order: bool, kind: int) -> bool:
     """
+    pre: 0 <= kind <= 5
     post: _
     """
+    from jasm.global_definitions import BinaryFileFormatNotSupported
+    if kind == 0:
+        _Recorder.exc = _OperationFailed("operation failed")
+    elif kind == 1:
+        _Recorder.exc = BinaryFileFormatNotSupported("not an object file")
+    elif kind == 2:
+        _Recorder.exc = FileNotFoundError("missing")
+    elif kind == 3:
+        _Recorder.exc = ValueError("bad rule")
+    elif kind == 4:
+        _Recorder.exc = AssertionError("missing file")
+    else:
+        _Recorder.exc = KeyError("x")
     only_addr, nmacros, has_p, fail = False, 0, True, True
     src = 2 if binary else 1''' + CLI_BODY
 
@@ -189,8 +207,21 @@ def subprocess_validation(run, t):
             ok = p.returncode == 0 and logged == api and found == bool(api) and notfound == (not api)
             if not ok:
                 run.failure("cli/SUBPROCESS", f"argv={argv[2:]} rc={p.returncode} logged={logged} api={api} found={found}", {"kind": "cli", "argv": argv[2:]})
+        # a long match through the real terminal handler: the logged text must be the API's text, whole
+        long_rule = {"pattern": [{"mov": {"times": 12}}]}
+        long_listing = "".join(f"    {0x401000 + 3 * i:x}:\t48 89 c3             \tmov    %rax,%rbx\n" for i in range(30))
+        open(os.path.join(d, "long.yaml"), "w").write(yaml.safe_dump(long_rule, sort_keys=False))
+        open(os.path.join(d, "long.s"), "w").write(long_listing)
+        p = subprocess.run([ch.PY, "-m", "jasm.main", "-p", "long.yaml", "-s", "long.s", "--all-matches"], cwd=d, env=env, capture_output=True, text=True, timeout=120)
+        logged = [l.split("Matched address: ", 1)[1] for l in p.stderr.splitlines() if "Matched address: " in l]
+        api = jasmapi.run_pipeline(long_rule, long_listing, all_matches=True, ret="list")
+        run.count("traces_validated_against_impl")
+        if logged != api:
+            run.failure("cli/LONGMATCH", f"long match: CLI logged {len(logged)} lines of lengths {[len(x) for x in logged]}, API returned lengths {[len(x) for x in api]}", {"kind": "cli", "argv": ["-p", "long.yaml", "-s", "long.s", "--all-matches"]})
+        notobj = os.path.join(d, "notobj.bin")
+        open(notobj, "w").write("plain text, not an object file\n")
         # failing operation: non-zero exit status
-        for argv_tail, why in ((["-p", "missing.yaml", "-s", "in.s"], "missing pattern file"), (["-p", "found.yaml", "-s", "missing.s"], "missing input"), (["-p", "found.yaml"], "neither -s nor -b"), (["-s", "in.s"], "no -p"), (["-p", "found.yaml", "-s", "in.s", "-b", "in.s"], "both -s and -b")):
+        for argv_tail, why in ((["-p", "missing.yaml", "-s", "in.s"], "missing pattern file"), (["-p", "found.yaml", "-s", "missing.s"], "missing input"), (["-p", "found.yaml", "-b", "notobj.bin"], "binary that objdump rejects"), (["-p", "found.yaml", "-b", "missing.bin"], "missing binary"), (["-p", "found.yaml"], "neither -s nor -b"), (["-s", "in.s"], "no -p"), (["-p", "found.yaml", "-s", "in.s", "-b", "in.s"], "both -s and -b")):
             p = subprocess.run([ch.PY, "-m", "jasm.main"] + argv_tail, cwd=d, env=env, capture_output=True, text=True, timeout=120)
             run.count("traces_validated_against_impl")
             if p.returncode == 0 or "RESULT: Pattern" in p.stderr:
